@@ -42,13 +42,13 @@ spec fn widths<X>(ls: Seq<(usize, X)>) -> Seq<usize> { ls.map(|i: int, e: (usize
 //@auto C01 C05
 //@sub /for &\(w, _\) in &line_sets\[\.\.line_sets\.len\(\) - 1\]/ ==> for k in 0..line_sets.len() - 1
 //@sub /let mut pos = 0;/ ==> let mut pos: usize = 0;
-fn join_slice<T: Clone, X>(prev_border: &mut BorderHoriz<T>, next_border: &mut BorderHoriz<T>, line_sets: &Vec<(usize, X)>) //@w[
-    requires
-        line_sets@.len() >= 1,   // boundary (A6): a row is only laid out when it has at least one cell (guard in render_table_row)
-        sep_pos(widths(line_sets@), line_sets@.len() - 1) < 0x4000_0000_0000_0000,   // A5
-    ensures
-        // exactly at the separator positions  P_k = w_0 + … + w_k + k  (k < n-1) the rule above gains a bar below and the
-        // rule below gains a bar above (unless the position is a stacked-cell separator); nothing else changes (C05)
+fn join_slice<T: Clone, X>(prev_border: &mut BorderHoriz<T>, next_border: &mut BorderHoriz<T>, line_sets: &Vec<(usize, X)>) //@w
+    requires //@w
+        line_sets@.len() >= 1,   // boundary (A6): a row is only laid out when it has at least one cell (guard in render_table_row) //@w
+        sep_pos(widths(line_sets@), line_sets@.len() - 1) < 0x4000_0000_0000_0000,   // A5 //@w
+    ensures //@w
+        // exactly at the separator positions  P_k = w_0 + … + w_k + k  (k < n-1) the rule above gains a bar below and the //@w
+        // rule below gains a bar above (unless the position is a stacked-cell separator); nothing else changes (C05) //@w
         forall|p: int| 0 <= p < final(prev_border).segments@.len() ==> //@w @C05 #bars_join_rule_above_at_separators
             down(#[trigger] final(prev_border).segments@[p]) == (down(at(old(prev_border).segments@, p)) || (is_sep(widths(line_sets@), line_sets@.len() - 1, p) && !vert(at(old(prev_border).segments@, p)))), //@w @C05 #bars_join_rule_above_at_separators
         forall|p: int| 0 <= p < final(next_border).segments@.len() ==> //@w @C05 #bars_join_rule_below_at_separators
@@ -56,63 +56,182 @@ fn join_slice<T: Clone, X>(prev_border: &mut BorderHoriz<T>, next_border: &mut B
         forall|p: int| 0 <= p < final(prev_border).segments@.len() ==> up(#[trigger] final(prev_border).segments@[p]) == up(at(old(prev_border).segments@, p)) && vert(final(prev_border).segments@[p]) == vert(at(old(prev_border).segments@, p)), //@w @C05 #join_keeps_rest_of_rule_above
         forall|p: int| 0 <= p < final(next_border).segments@.len() ==> down(#[trigger] final(next_border).segments@[p]) == down(at(old(next_border).segments@, p)) && vert(final(next_border).segments@[p]) == vert(at(old(next_border).segments@, p)), //@w @C05 #join_keeps_rest_of_rule_below
         final(prev_border).segments@.len() >= old(prev_border).segments@.len() && final(next_border).segments@.len() >= old(next_border).segments@.len(), //@w @C05
-{ //@w]
+{ //@w
             let mut pos: usize = 0;
             html_trace!("Merging with last line:\n{}", prev_border.to_string());
             for k in 0..line_sets.len() - 1
-                invariant //@w[
-                    line_sets@.len() >= 1, sep_pos(widths(line_sets@), line_sets@.len() - 1) < 0x4000_0000_0000_0000,
-                    pos == sep_pos(widths(line_sets@), k as int - 1) + 1,
-                    k > 0 ==> prev_border.segments@.len() >= pos && next_border.segments@.len() >= pos,
-                    prev_border.segments@.len() >= old(prev_border).segments@.len() && next_border.segments@.len() >= old(next_border).segments@.len(),
-                    forall|p: int| 0 <= p < prev_border.segments@.len() ==>
-                        down(#[trigger] prev_border.segments@[p]) == (down(at(old(prev_border).segments@, p)) || (is_sep(widths(line_sets@), k as int, p) && !vert(at(old(prev_border).segments@, p)))),
-                    forall|p: int| 0 <= p < next_border.segments@.len() ==>
-                        up(#[trigger] next_border.segments@[p]) == (up(at(old(next_border).segments@, p)) || (is_sep(widths(line_sets@), k as int, p) && !vert(at(old(next_border).segments@, p)))),
-                    forall|p: int| 0 <= p < prev_border.segments@.len() ==> up(#[trigger] prev_border.segments@[p]) == up(at(old(prev_border).segments@, p)) && vert(prev_border.segments@[p]) == vert(at(old(prev_border).segments@, p)),
-                    forall|p: int| 0 <= p < next_border.segments@.len() ==> down(#[trigger] next_border.segments@[p]) == down(at(old(next_border).segments@, p)) && vert(next_border.segments@[p]) == vert(at(old(next_border).segments@, p)),
-                //@w]
+                invariant //@w
+                    line_sets@.len() >= 1, sep_pos(widths(line_sets@), line_sets@.len() - 1) < 0x4000_0000_0000_0000, //@w
+                    pos == sep_pos(widths(line_sets@), k as int - 1) + 1, //@w
+                    k > 0 ==> prev_border.segments@.len() >= pos && next_border.segments@.len() >= pos, //@w
+                    prev_border.segments@.len() >= old(prev_border).segments@.len() && next_border.segments@.len() >= old(next_border).segments@.len(), //@w
+                    forall|p: int| 0 <= p < prev_border.segments@.len() ==> //@w
+                        down(#[trigger] prev_border.segments@[p]) == (down(at(old(prev_border).segments@, p)) || (is_sep(widths(line_sets@), k as int, p) && !vert(at(old(prev_border).segments@, p)))), //@w
+                    forall|p: int| 0 <= p < next_border.segments@.len() ==> //@w
+                        up(#[trigger] next_border.segments@[p]) == (up(at(old(next_border).segments@, p)) || (is_sep(widths(line_sets@), k as int, p) && !vert(at(old(next_border).segments@, p)))), //@w
+                    forall|p: int| 0 <= p < prev_border.segments@.len() ==> up(#[trigger] prev_border.segments@[p]) == up(at(old(prev_border).segments@, p)) && vert(prev_border.segments@[p]) == vert(at(old(prev_border).segments@, p)), //@w
+                    forall|p: int| 0 <= p < next_border.segments@.len() ==> down(#[trigger] next_border.segments@[p]) == down(at(old(next_border).segments@, p)) && vert(next_border.segments@[p]) == vert(at(old(next_border).segments@, p)), //@w
             {
                 let w = line_sets[k].0; //@w
                 proof { lemma_sep_mono(widths(line_sets@), k as int, line_sets@.len() - 1); assert(widths(line_sets@)[k as int] == w); lemma_is_sep_step(widths(line_sets@), k as int); } //@w
                 html_trace!("pos={}, w={}", pos, w);
                 let ghost pb0 = prev_border.segments@; //@w
                 prev_border.join_below(pos + w);
-                proof { //@w[
-                    assert(pos + w == sep_pos(widths(line_sets@), k as int));
-                    assert forall|p: int| 0 <= p < prev_border.segments@.len() implies
-                        down(#[trigger] prev_border.segments@[p]) == (down(at(old(prev_border).segments@, p)) || (is_sep(widths(line_sets@), k as int + 1, p) && !vert(at(old(prev_border).segments@, p)))) by {
-                        let o = at(old(prev_border).segments@, p); let ws = widths(line_sets@);
-                        if p == pos + w {
-                            if p < pb0.len() { assert(vert(pb0[p]) == vert(o)); } else { assert(o is Straight); }
-                            assert(is_sep(ws, k as int + 1, p));
-                        } else {
-                            assert(prev_border.segments@[p] == at(pb0, p));
-                            assert(is_sep(ws, k as int + 1, p) == is_sep(ws, k as int, p));
-                            if p < pb0.len() { assert(down(pb0[p]) == (down(o) || (is_sep(ws, k as int, p) && !vert(o)))); } else { assert(!is_sep(ws, k as int, p)); assert(o is Straight); }
-                        }
-                    }
-                } //@w]
+                proof { //@w
+                    assert(pos + w == sep_pos(widths(line_sets@), k as int)); //@w
+                    assert forall|p: int| 0 <= p < prev_border.segments@.len() implies //@w
+                        down(#[trigger] prev_border.segments@[p]) == (down(at(old(prev_border).segments@, p)) || (is_sep(widths(line_sets@), k as int + 1, p) && !vert(at(old(prev_border).segments@, p)))) by { //@w
+                        let o = at(old(prev_border).segments@, p); let ws = widths(line_sets@); //@w
+                        if p == pos + w { //@w
+                            if p < pb0.len() { assert(vert(pb0[p]) == vert(o)); } else { assert(o is Straight); } //@w
+                            assert(is_sep(ws, k as int + 1, p)); //@w
+                        } else { //@w
+                            assert(prev_border.segments@[p] == at(pb0, p)); //@w
+                            assert(is_sep(ws, k as int + 1, p) == is_sep(ws, k as int, p)); //@w
+                            if p < pb0.len() { assert(down(pb0[p]) == (down(o) || (is_sep(ws, k as int, p) && !vert(o)))); } else { assert(!is_sep(ws, k as int, p)); assert(o is Straight); } //@w
+                        } //@w
+                    } //@w
+                } //@w
                 let ghost nb0 = next_border.segments@; //@w
                 next_border.join_above(pos + w);
-                proof { //@w[
-                    assert forall|p: int| 0 <= p < next_border.segments@.len() implies
-                        up(#[trigger] next_border.segments@[p]) == (up(at(old(next_border).segments@, p)) || (is_sep(widths(line_sets@), k as int + 1, p) && !vert(at(old(next_border).segments@, p)))) by {
-                        let o = at(old(next_border).segments@, p); let ws = widths(line_sets@);
-                        if p == pos + w {
-                            if p < nb0.len() { assert(vert(nb0[p]) == vert(o)); } else { assert(o is Straight); }
-                            assert(is_sep(ws, k as int + 1, p));
-                        } else {
-                            assert(next_border.segments@[p] == at(nb0, p));
-                            assert(is_sep(ws, k as int + 1, p) == is_sep(ws, k as int, p));
-                            if p < nb0.len() { assert(up(nb0[p]) == (up(o) || (is_sep(ws, k as int, p) && !vert(o)))); } else { assert(!is_sep(ws, k as int, p)); assert(o is Straight); }
-                        }
-                    }
-                } //@w]
+                proof { //@w
+                    assert forall|p: int| 0 <= p < next_border.segments@.len() implies //@w
+                        up(#[trigger] next_border.segments@[p]) == (up(at(old(next_border).segments@, p)) || (is_sep(widths(line_sets@), k as int + 1, p) && !vert(at(old(next_border).segments@, p)))) by { //@w
+                        let o = at(old(next_border).segments@, p); let ws = widths(line_sets@); //@w
+                        if p == pos + w { //@w
+                            if p < nb0.len() { assert(vert(nb0[p]) == vert(o)); } else { assert(o is Straight); } //@w
+                            assert(is_sep(ws, k as int + 1, p)); //@w
+                        } else { //@w
+                            assert(next_border.segments@[p] == at(nb0, p)); //@w
+                            assert(is_sep(ws, k as int + 1, p) == is_sep(ws, k as int, p)); //@w
+                            if p < nb0.len() { assert(up(nb0[p]) == (up(o) || (is_sep(ws, k as int, p) && !vert(o)))); } else { assert(!is_sep(ws, k as int, p)); assert(o is Straight); } //@w
+                        } //@w
+                    } //@w
+                } //@w
                 pos += w + 1;
             }
 } //@w
 //@end
 
+
+// R10: the text lines of a cell are not touched by the border loops
+#[verifier::external_body] #[verifier::accept_recursive_types(T)] struct TaggedLine<T> { x: std::marker::PhantomData<T> }
+//@item src/render/text_renderer.rs :: enum RenderLine
+enum RenderLine<T> {
+    /// Some rendered text
+    Text(TaggedLine<T>),
+    /// A table border line
+    Line(BorderHoriz<T>),
+}
+//@end
+spec fn ends_border<T>(ls: Seq<RenderLine<T>>) -> bool { ls.len() > 0 && ls.last() is Line }
+spec fn bot<T>(ls: Seq<RenderLine<T>>) -> Seq<BorderSegHoriz> { ls.last()->Line_0.segments@ }
+spec fn col_start<T>(lsets: Seq<(usize, Vec<RenderLine<T>>)>, k: int) -> int { sep_pos(widths(lsets), k - 1) + 1 }
+// some column k < n ends in a (nested table's) bottom border that has a junction at position i of the row
+spec fn merged_up<T>(lsets: Seq<(usize, Vec<RenderLine<T>>)>, n: int, i: int) -> bool {
+    exists|k: int| 0 <= k < n && ends_border((#[trigger] lsets[k]).1@) && col_start(lsets, k) <= i < col_start(lsets, k) + bot(lsets[k].1@).len() && joined(bot(lsets[k].1@)[i - col_start(lsets, k)])
+}
+// merged_up(ls, k+1, i) == merged_up(ls, k, i) || (column k ends in a border with a junction at i - col_start(k))
+proof fn lemma_merged_step<T>(ls: Seq<(usize, Vec<RenderLine<T>>)>, k: int)
+    requires 0 <= k < ls.len(),
+    ensures forall|i: int| (#[trigger] merged_up(ls, k + 1, i)) == (merged_up(ls, k, i)
+        || (ends_border(ls[k].1@) && col_start(ls, k) <= i < col_start(ls, k) + bot(ls[k].1@).len() && joined(bot(ls[k].1@)[i - col_start(ls, k)]))),
+{
+    assert forall|i: int| (#[trigger] merged_up(ls, k + 1, i)) == (merged_up(ls, k, i)
+        || (ends_border(ls[k].1@) && col_start(ls, k) <= i < col_start(ls, k) + bot(ls[k].1@).len() && joined(bot(ls[k].1@)[i - col_start(ls, k)]))) by {
+        if merged_up(ls, k + 1, i) {
+            let j = choose|j: int| 0 <= j < k + 1 && ends_border((#[trigger] ls[j]).1@) && col_start(ls, j) <= i < col_start(ls, j) + bot(ls[j].1@).len() && joined(bot(ls[j].1@)[i - col_start(ls, j)]);
+            if j < k { assert(merged_up(ls, k, i)); }
+        }
+        if merged_up(ls, k, i) {
+            let j = choose|j: int| 0 <= j < k && ends_border((#[trigger] ls[j]).1@) && col_start(ls, j) <= i < col_start(ls, j) + bot(ls[j].1@).len() && joined(bot(ls[j].1@)[i - col_start(ls, j)]);
+            assert(0 <= j < k + 1 && ends_border(ls[j].1@));
+        }
+        if ends_border(ls[k].1@) && col_start(ls, k) <= i < col_start(ls, k) + bot(ls[k].1@).len() && joined(bot(ls[k].1@)[i - col_start(ls, k)]) {
+            assert(0 <= k < k + 1 && ends_border(ls[k].1@));
+        }
+    }
+}
+// every junction merged so far lies inside the rule
+spec fn covered<T>(ls: Seq<(usize, Vec<RenderLine<T>>)>, k: int, len: int) -> bool { forall|i: int| (#[trigger] merged_up(ls, k, i)) ==> i < len }
+spec fn is_bars(s: Seq<char>, b: Seq<BorderSegHoriz>) -> bool { s.len() == b.len() && forall|i: int| 0 <= i < b.len() ==> #[trigger] s[i] == (if up(b[i]) { '│' } else { ' ' }) }
+
+//@slice src/render/text_renderer.rs :: impl SubRenderer :: fn append_columns_with_borders :: /\/\* Collapse any bottom border \*\// .. /(?m)^        \}\n\n        let cell_height/
+//@name collapse_bottom_slice
+//@auto C01 C05
+//@sub /let mut pos = 0;/ ==> let mut pos: usize = 0;
+//@sub /for \(col_no, &mut \(w, ref mut sublines\)\) in line_sets\.iter_mut\(\)\.enumerate\(\)/ ==> for col_no in 0..line_sets.len()
+fn collapse_bottom_slice<T: Clone>(line_sets: &mut Vec<(usize, Vec<RenderLine<T>>)>, next_border: &mut BorderHoriz<T>, column_padding: &mut Vec<Option<String>>) //@w[
+    requires
+        old(column_padding)@.len() == old(line_sets)@.len(),     // `vec![None; line_sets.len()]` just before
+        sep_pos(widths(old(line_sets)@), old(line_sets)@.len() - 1) < 0x4000_0000_0000_0000,   // A5
+        forall|k: int| 0 <= k < old(line_sets)@.len() && ends_border((#[trigger] old(line_sets)@[k]).1@) ==> bot(old(line_sets)@[k].1@).len() < 0x4000_0000_0000_0000,   // A5
+    ensures
+        final(line_sets)@.len() == old(line_sets)@.len(), final(column_padding)@.len() == old(column_padding)@.len(),
+        // a column that ends in a border loses exactly that line, and its filler line is the border's bars above (C05); other columns are untouched
+        forall|k: int| 0 <= k < old(line_sets)@.len() ==> (#[trigger] final(line_sets)@[k]).0 == old(line_sets)@[k].0 //@w @C05 #collapse_bottom_keeps_widths
+            && final(line_sets)@[k].1@ == (if ends_border(old(line_sets)@[k].1@) { old(line_sets)@[k].1@.drop_last() } else { old(line_sets)@[k].1@ }), //@w @C03 @C05 #collapse_bottom_removes_only_the_border
+        forall|k: int| 0 <= k < old(line_sets)@.len() ==> (if ends_border(old(line_sets)@[k].1@) { //@w @C05 #filler_is_bars_of_collapsed_border
+                (#[trigger] final(column_padding)@[k]) matches Some(s) && is_bars(s@, bot(old(line_sets)@[k].1@)) } else { final(column_padding)@[k] == old(column_padding)@[k] }), //@w @C05 #filler_is_bars_of_collapsed_border
+        // the rule below gets a bar above exactly where a collapsed border has a junction, at the column's own offset (C05)
+        forall|i: int| 0 <= i < final(next_border).segments@.len() ==> //@w @C05 #collapsed_junctions_at_column_offset
+            up(#[trigger] final(next_border).segments@[i]) == (up(at(old(next_border).segments@, i)) || (merged_up(old(line_sets)@, old(line_sets)@.len() as int, i) && !vert(at(old(next_border).segments@, i)))), //@w @C05 #collapsed_junctions_at_column_offset
+        forall|i: int| 0 <= i < final(next_border).segments@.len() ==> down(#[trigger] final(next_border).segments@[i]) == down(at(old(next_border).segments@, i)) && vert(final(next_border).segments@[i]) == vert(at(old(next_border).segments@, i)), //@w @C05 #collapse_bottom_keeps_rest
+        final(next_border).segments@.len() >= old(next_border).segments@.len(),
+{ //@w]
+            /* Collapse any bottom border */
+            let mut pos: usize = 0;
+            let ghost ls0 = line_sets@; //@w
+            let ghost n = line_sets@.len(); //@w
+            assert forall|i: int| !(#[trigger] merged_up(ls0, 0, i)) by {} //@w
+            for col_no in 0..line_sets.len()
+                invariant //@w[
+                    ls0 == old(line_sets)@, n == ls0.len(), line_sets@.len() == n, column_padding@.len() == n,
+                    sep_pos(widths(ls0), n - 1) < 0x4000_0000_0000_0000,
+                    forall|k: int| 0 <= k < n && ends_border((#[trigger] ls0[k]).1@) ==> bot(ls0[k].1@).len() < 0x4000_0000_0000_0000,
+                    pos == col_start(ls0, col_no as int),
+                    forall|k: int| col_no <= k < n ==> #[trigger] line_sets@[k] == ls0[k],
+                    forall|k: int| col_no <= k < n ==> #[trigger] column_padding@[k] == old(column_padding)@[k],
+                    forall|k: int| 0 <= k < col_no ==> (#[trigger] line_sets@[k]).0 == ls0[k].0
+                        && line_sets@[k].1@ == (if ends_border(ls0[k].1@) { ls0[k].1@.drop_last() } else { ls0[k].1@ }),
+                    forall|k: int| 0 <= k < col_no ==> (if ends_border(ls0[k].1@) {
+                            (#[trigger] column_padding@[k]) matches Some(s) && is_bars(s@, bot(ls0[k].1@)) } else { column_padding@[k] == old(column_padding)@[k] }),
+                    next_border.segments@.len() >= old(next_border).segments@.len(),
+                    covered(ls0, col_no as int, next_border.segments@.len() as int),
+                    forall|i: int| 0 <= i < next_border.segments@.len() ==>
+                        up(#[trigger] next_border.segments@[i]) == (up(at(old(next_border).segments@, i)) || (merged_up(ls0, col_no as int, i) && !vert(at(old(next_border).segments@, i)))),
+                    forall|i: int| 0 <= i < next_border.segments@.len() ==> down(#[trigger] next_border.segments@[i]) == down(at(old(next_border).segments@, i)) && vert(next_border.segments@[i]) == vert(at(old(next_border).segments@, i)),
+                //@w]
+            {
+                let w = line_sets[col_no].0; //@w
+                let ghost nb0 = next_border.segments@; //@w
+                proof { lemma_sep_mono(widths(ls0), col_no as int, n - 1); assert(widths(ls0)[col_no as int] == w); } //@w
+                let sublines = &mut line_sets[col_no].1; //@w
+                assert(sublines@ == ls0[col_no as int].1@); //@w
+                proof { lemma_merged_step(ls0, col_no as int); } //@w
+                if let Some(RenderLine::Line(line)) = sublines.last() {
+                    let ghost b = line.segments@; //@w
+                    assert(ends_border(ls0[col_no as int].1@) && b == bot(ls0[col_no as int].1@)); //@w
+                    html_trace!("Ends border");
+                    next_border.merge_from_above(line, pos);
+                    column_padding[col_no] = Some(line.to_vertical_lines_above());
+                    sublines.pop();
+                    proof { //@w[
+                        let k = col_no as int;
+                        assert forall|i: int| (#[trigger] merged_up(ls0, k + 1, i)) implies i < next_border.segments@.len() by {
+                            if !merged_up(ls0, k, i) { assert(joined(b[i - pos])); assert((i - pos) + pos < next_border.segments@.len()); }
+                        }
+                        assert forall|i: int| 0 <= i < next_border.segments@.len() implies
+                            up(#[trigger] next_border.segments@[i]) == (up(at(old(next_border).segments@, i)) || (merged_up(ls0, k + 1, i) && !vert(at(old(next_border).segments@, i)))) by {
+                            let o = at(old(next_border).segments@, i);
+                            if i < nb0.len() { assert(up(nb0[i]) == (up(o) || (merged_up(ls0, k, i) && !vert(o)))); assert(vert(nb0[i]) == vert(o)); }
+                            else { assert(!merged_up(ls0, k, i)); assert(o is Straight); }
+                        }
+                    } //@w]
+                }
+                pos += w + 1;
+            }
+} //@w
+//@end
 } // verus!
 fn main() {}
